@@ -78,6 +78,7 @@ class PcapRecord(object):
 
         if struct.calcsize(Pcap.RECORD_HEADER_FORMAT) != len(buf):
             raise ValueError("Header buffer is not the correct size to be a Pcap record header")
+        self._payload = bytes()
         (self.sec, self.usec, self.incl_len, self.orig_len) = struct.unpack(Pcap.RECORD_HEADER_FORMAT, buf)
 
     def pack(self) -> bytes:
